@@ -181,7 +181,7 @@ func (g *gen) enumDef() *Def {
 
 func (g *gen) structDef(name string, top bool) *Def {
 	d := &Def{Kind: KStruct, Name: name}
-	d.ReadOnly = g.r.Chance(1, 5)
+	d.ReadOnly = top && g.r.Chance(1, 5) // the grammar has no readonly union branches
 	if top && g.r.Chance(1, 8) {
 		d.OpCode = uint32(g.r.Uint64()) | 1
 	}
@@ -311,4 +311,36 @@ func (g *gen) namedCandidates(owner Kind, ownerName string) []string {
 		out = append(out, ownerName) // direct recursion through a message
 	}
 	return out
+}
+
+// GenerateWithLib draws a program that imports a small library file: the library holds
+// enums with explicit base types, a struct, a message and a union; the program's own
+// records use them in every container position.
+func GenerateWithLib(r *prng.Rand, name string) *Schema {
+	g := &gen{r: r, nm: &namer{r: r.Fork("names"), used: map[string]bool{}}, s: &Schema{Name: name}}
+	g.cfg = GenConfig{MaxDefs: 4, MaxFields: r.Range(2, 5), MaxDepth: r.Range(1, 2)}
+	nl := r.Range(2, 4)
+	for i := 0; i < nl; i++ {
+		g.def(false)
+	}
+	for _, d := range g.s.Defs {
+		d.Imported = true
+		d.Flags = false
+	}
+	nd := r.Range(1, 3)
+	for i := 0; i < nd; i++ {
+		g.def(i == nd-1)
+	}
+	g.s.Combined = r.Bool()
+	var front, back []*Def
+	for _, d := range g.s.Defs {
+		if d.Kind == KEnum && d.Flags {
+			back = append(back, d)
+		} else {
+			front = append(front, d)
+		}
+	}
+	g.s.Defs = append(front, back...)
+	g.s.index()
+	return g.s
 }
